@@ -191,3 +191,35 @@ func (r *ndRun) byzProposal(line string, b *ndNode, rnd basics.Round, per period
 	}
 	r.inject(b.id, protocol.ProposalPayloadTag, protocol.Encode(&tp), mask)
 }
+
+// byzRelayProposal executes `bpv` (b signs a proposal-vote of period per for a value it has seen: a re-proposal) and `bpl`
+// (b forwards the payload of a value it has seen, with an empty prior vote).
+func (r *ndRun) byzRelayProposal(line string, b *ndNode, rnd basics.Round, per period, valTok string, mask []bool, payloadOnly bool) {
+	l := r.refLedger()
+	r.mu.Lock()
+	pv, ok := r.valTok[valTok]
+	up, have := r.payloads[valTok]
+	r.mu.Unlock()
+	if !ok || rnd == 0 || rnd > l.NextRound() {
+		r.diverged(line)
+		return
+	}
+	if payloadOnly {
+		if !have {
+			r.diverged(line)
+			return
+		}
+		tp := transmittedPayload{unauthenticatedProposal: up}
+		r.inject(b.id, protocol.ProposalPayloadTag, protocol.Encode(&tp), mask)
+		return
+	}
+	uv, err := r.byzSign(b, rnd, per, propose, pv, l)
+	if err != nil {
+		r.note("BYZ-SIGN-FAILED %v", err)
+		return
+	}
+	r.mu.Lock()
+	r.logLocked("BYZPROPVOTE node=%d round=%d period=%d val=%s", b.id, rnd, per, valTok)
+	r.mu.Unlock()
+	r.inject(b.id, protocol.AgreementVoteTag, protocol.Encode(&uv), mask)
+}
